@@ -23,6 +23,9 @@ def arms9(call, which):
     return "\n".join(out)
 
 
+POS_ORDER = ["first", "middle", "last"]
+
+
 def c05(tier, seed, dst, facts):
     hs = []
     HDR = "#[kani::proof]\n" + G.STUB_RS + "\n#[kani::unwind(8)]"
@@ -31,7 +34,10 @@ def c05(tier, seed, dst, facts):
     shapes = [(p, L) for p in POS for L in (1, 2, 3)]
 
     # ------------------------------------------------------------------ matching: length
-    for (p, L) in (shapes if tier == "thorough" else [("first", 1), ("middle", 2), ("last", 3), ("middle", 1), ("first", 3)]):
+    # quick: two of the nine shapes per run, rotating with VERIF_SEED so that every run length and every position comes
+    # up (a shape costs 3-6 minutes of solver time: nine real matcher calls merged); thorough: all nine
+    ml_rot = [[("first", 1), ("last", 3)], [("middle", 2), ("first", 3)], [("middle", 1), ("last", 3)]]
+    for (p, L) in (shapes if tier == "thorough" else ml_rot[seed % len(ml_rot)]):
         pre, post = POS[p]
         nm = "c05_match_length_%s_%d" % (p, L)
         hs.append(G.H(nm, "match-length", "subrule", G.T(HDR + """
@@ -160,7 +166,8 @@ fn c05_match_tone_seg() {
         (Err(_), Some(_)) => assert!(false, "role=unexpected-error"),
     }
 """
-    for (p, L) in (shapes if tier == "thorough" else [s_ for s_ in shapes if s_ != ("last", 1) and s_ != ("first", 2)]):
+    slt_rot = [[("first", 1), ("middle", 2), ("last", 3), ("middle", 3)], [("middle", 1), ("first", 3), ("last", 2), ("middle", 2)]]
+    for (p, L) in (shapes if tier == "thorough" else slt_rot[seed % len(slt_rot)]):
         pre, post = POS[p]
         nm = "c05_set_length_table_%s_%d" % (p, L)
         hs.append(G.H(nm, "set-length-table", "syll", G.T(HDR + """
@@ -189,7 +196,13 @@ fn @name@() {
     rows_for = {1: [1, 3, 4, 8], 2: [3, 2, 8, 6], 3: [6, 2, 8, 1]}
     for (p, L) in shapes:
         pre, post = POS[p]
-        rows = [r for r in range(9) if r != 7] if tier == "thorough" else rows_for[L][:(1 if p != "middle" else 3)]   # row 7 = [+long,-overlong] (a removal loop followed by an insertion loop) exhausts memory on symbolic bundles; it is decided on concrete bundles by the table family
+        # quick: a fixed menu of (shape, row) pairs that are known to fit in memory, half of it per run (VERIF_SEED parity);
+        # (last, 2, row 3) = [-long] on a final long segment exhausted 14 GB and is left to the concrete-bundle table family
+        menu = {("first", 1): [1], ("first", 2): [3], ("first", 3): [6], ("middle", 1): [1, 3, 4], ("middle", 2): [3, 2, 8], ("middle", 3): [6, 2, 8], ("last", 1): [1], ("last", 3): [6]}
+        if tier == "thorough":
+            rows = [r for r in range(9) if r != 7 and not (p == "last" and L == 2 and r == 3)]
+        else:
+            rows = [r for i, r in enumerate(menu.get((p, L), [])) if (i + seed + L) % 2 == 0]
         for k in rows:
             la, lb = k % 3, k // 3
             nm = "c05_set_length_any_%s_%d_row%d" % (p, L, k)
@@ -283,8 +296,8 @@ fn @name@() {
     let st = any_stress(); let tone: u16 = kani::any();
     let mut sy = syll_of(&[@segs@], st, tone);
     let alphas: RefCell<HashMap<char, Alpha>> = RefCell::new(HashMap::new());
-    let mut ml = Modifiers::new(); ml.suprs.length = [bin(true), None];
-    let mut mo = Modifiers::new(); mo.suprs.length = [None, bin(true)];
+    let mut ml = mods_new(); ml.suprs.length = [bin(true), None];
+    let mut mo = mods_new(); mo.suprs.length = [None, bin(true)];
     let r = sy.replace_segment(1, &b, &@mods@, &alphas, P);
     let nl: usize = @nl@;
     match r { Ok(lc) => assert!(lc as i32 == nl as i32 - @L@, "role=returned-length-change"), Err(_) => assert!(false, "role=unexpected-error") }
@@ -336,7 +349,7 @@ fn c05_twin_reach() {
 """), functions=["Syllable::apply_supras"], symbolic="as set-length", shape="assert(false) twin", expect="fail", unwind=8, stubs=STUBS))
 
     return {
-        "harnesses": hs, "cap_s": 1800, "jobs": 12,
+        "harnesses": hs, "cap_s": 900 if tier == "quick" else 1800, "jobs": 8,
         "bounds": ["syllable shapes: run length 1..3, run first / middle / last in its syllable, at most one neighbour each side", "unwind 8 (runs <= 3, syllables <= 5 segments); replace_segment shapes unwind FType::count()+2",
                    "modifier combinations: all 9 = {absent,+,-}^2 per table, chosen by a symbolic selector, each arm built with concrete constructors"],
         "outside": ["the cursor arithmetic of SubRule::apply/substitution (subrule.rs:1394-1415, 1975-1978): the defect quoted in the property (`V > [+long]` on an already long vowel) lives there and is NOT visible to these kernels; whole-rule application does not finish under CBMC",
